@@ -194,6 +194,10 @@ class EvaluateSingleFc:
                   condition_key=Str())
     raises = {"NotImplementedError": "raises_no_method", "Exception": None}
 
+    def hook(ex, st, bound):
+        from contracts.evaluators import _fc_hook
+        return _fc_hook(ex, st, bound)
+
     def raises_no_method(self, condition_key):
         return condition_key not in self._evaluation_methods
 
